@@ -84,7 +84,74 @@ def prog_shard(shard):
     return p
 
 
+# ---- declared data: what the assembler preloads is what a cached program reads -------------------------------------
+DECL_CACHES = PROG_CACHES + [(0, 2, 1, "wb", "lru"), (0, 1, 2, "wb", "plru"), (1, 2, 2, "wt", "lru")]
+
+
+def decl_texts():
+    """Data segments mixing every declaration kind (strings of length 0..5 in front of other variables, so that a
+    terminator shares a cache block with the next variable), each followed by loads of every element and a few stores."""
+    out = []
+    for n in range(6):
+        st = "abcde"[:n]
+        data = [f's: .string "{st}"', "w: .word 0x11223344, -2", "b: .byte 1, -1, 3", f't: .string "{st[::-1]}x"', "h: .half 0x1234, -5, 7", "z: .zero 2", "q: .word 9"]
+        for rot in (0, 3):
+            d = data[rot:] + data[:rot]
+            body = []
+            r = 5
+            for name, mn, cnt in (("s", "lbu", n + 1), ("w", "lw", 2), ("b", "lb", 3), ("t", "lbu", n + 2), ("h", "lh", 3), ("z", "lw", 2), ("q", "lw", 1)):
+                for i in range(cnt):
+                    body.append(f"{mn} x{r}, {name}[{i}]")
+                    r = r + 1 if r < 31 else 5
+            body += ["sw x6, q, x4", "sb x7, s, x4", "lw x28, q", "lbu x29, s", "lw x30, w[1]", "lh x31, h[2]"]
+            out.append(".data\n" + "\n".join(d) + "\n.text\n" + "\n".join(body) + "\n")
+    return out
+
+
+def decl_case(ti, ci, mode):
+    from architecture_simulator.simulation.riscv_simulation import RiscvSimulation
+    text = decl_texts()[ti]
+    ib, bb, ways, kind, policy = DECL_CACHES[ci]
+    res = []
+    for cached in (False, True):
+        sim = RiscvSimulation(mode=mode, **({"data_cache": rv.cache_opts(ib, bb, ways, kind, policy, 1)} if cached else {}))
+        sim.load_program(text)
+        r = rv.run(sim, 600)
+        # the data segment read word by word through the memory system (uncounted), after the run
+        words = [int(sim.state.memory.read_word(a, False)) for a in range(rv.BASE, rv.BASE + 96, 4)]
+        res.append((r.regs, r.err, r.exc, r.done, words))
+    (r0, e0, x0, d0, w0), (r1, e1, x1, d1, w1) = res
+    if (e0, x0, d0) != (e1, x1, d1):
+        return f"run outcome differs: uncached (err, exc, done) {(e0, x0, d0)}, cached {(e1, x1, d1)}"
+    if r0 != r1:
+        k = next(i for i in range(32) if r0[i] != r1[i])
+        return f"x{k} = {r1[k]:#x}, uncached run {r0[k]:#x}"
+    if w0 != w1:
+        k = next(i for i in range(len(w0)) if w0[i] != w1[i])
+        return f"word at {rv.BASE + 4 * k:#x} reads {w1[k]:#x} after the run, uncached {w0[k]:#x}"
+    return None
+
+
+def decl_shard(shard):
+    ti = shard
+    p = Partial()
+    for ci in range(len(DECL_CACHES)):
+        for mode in (rv.SINGLE, rv.FIVE):
+            p.evaluations += 1
+            p.nontrivial += 1
+            p.counters["declared-data-through-a-cache"] += 1
+            d = decl_case(ti, ci, mode)
+            if d:
+                p.violation(dict(oracle="declared-data", field="differs-from-uncached"), dict(kind="declared-data", ti=ti, ci=ci, mode=mode),
+                            f"{decl_texts()[ti]!r} [{'/'.join(map(str, DECL_CACHES[ci]))}] {mode}: {d}", size=(ti, ci))
+    p.sample(dict(kind="declared-data", text=decl_texts()[ti]))
+    return p
+
+
 def replay(case):
+    if case["kind"] == "declared-data":
+        d = decl_case(case["ti"], case["ci"], case["mode"])
+        return [(dict(oracle="declared-data", field="differs-from-uncached"), d)] if d else []
     if case["kind"] == "cache-history":
         return cachebfs.replay(case)
     prog = [tuple(i) for i in case["prog"]]
@@ -145,6 +212,11 @@ def run(ctx):
     # stores of the value 0 over a sparsely preloaded store (only every other word exists below the cache)
     for kind, g, depth in (("wb", (0, 1, 1), 4), ("wb", (1, 1, 2), 3), ("wt", (0, 1, 2), 3), ("wb", (0, 2, 1), 3)) + ((("wb", (0, 1, 2), 4), ("wt", (1, 1, 1), 4)) if not ctx.quick else ()):
         cachebfs.explore(ctx, Cfg(*g, kind, "lru", 0, "wordz", 2, "base"), WANT, depth + (0 if ctx.quick else 1))
+    t0 = time.time()
+    part = pmap(decl_shard, list(range(len(decl_texts()))))
+    ctx.space("declared-data-through-caches", part, t0, texts=len(decl_texts()), cache_configs=len(DECL_CACHES), modes=2,
+              note="data segments with every declaration kind, loaded element by element and stored to, cached vs. uncached")
+    ctx.require("declared-data-through-a-cache")
     ctx.require("cache-eviction", "cache-fill", "rejected")
     for L in range(1, (3 if ctx.quick else 4) + 1):
         t0 = time.time()
